@@ -208,6 +208,26 @@ def run(tier):
                                 c["raised"], c["exc"] = True, type(e).__name__ + ":" + str(e)[:80]
                             cases.append(c)
                             ctx.case(("extend-coinciding-identifiers", A_.name, P_.name, first is A_, replace, pos, Dcur is first))
+    # RENAMES whose new name differs from the original's only in "/" versus "_" and that add no field: the original record
+    # (and records made from its descriptor afterwards) keep their own name
+    for oldname, newname in (("demo/conn_log", "demo_conn/log"), ("demo_flat", "demo/flat"), ("a/b/c_d", "a_b/c/d")):
+        for with_other in (False, True):
+            kk += 3
+            r1 = W.build(kk, [("a", "string"), ("b", "varint")], name=oldname)
+            others = [W.build(kk + 1, [("a", "string")], name="t/ren_other")] if with_other else []
+            recs = [r1] + others
+            before = [json.dumps(observe.obs_record(r), sort_keys=True) for r in recs]
+            c = base_case("extend", [W.project(r) for r in recs], replace=False)
+            try:
+                res = extend_record(r1, others, name=newname)
+                c["res"] = [W.project(res)]
+                later = r1._desc(**{n: getattr(r1, n) for _, n in r1._desc.get_field_tuples()}, _generated=gen.GEN)
+                c["name_ok"] = res._desc.name == newname and r1._desc.name == oldname and later._desc.name == oldname and r1._desc.identifier[0] == oldname
+            except Exception as e:
+                c["raised"], c["exc"] = True, type(e).__name__ + ":" + str(e)[:80]
+            c["originals_unchanged"] = before == [json.dumps(observe.obs_record(r), sort_keys=True) for r in recs]
+            cases.append(c)
+            ctx.case(("extend-rename-slash-underscore", oldname, newname, with_other))
     # composition while an ignore-for-comparison setting is in force: that setting is about == and hash, never about which
     # record's value wins
     from flow.record.base import set_ignored_fields_for_comparison as _set_ign
